@@ -1,6 +1,7 @@
 (* C21 — Tag analysis is total and raises no false alarms.  Property theorems only. *)
 From Coq Require Import String.
-From LiquidVerif Require Import Prelude TagAudit TagAudit_Proofs.
+From LiquidVerif Require Import Prelude TagAudit TagAudit_Proofs TagWalk TagWalk_Proofs.
+From LiquidVerif Require TagTree.
 Local Open Scope string_scope. Local Open Scope list_scope.
 
 (* analysing any token sequence returns a result (no IndexError any more) *)
@@ -30,6 +31,101 @@ Theorem C21_unclosed_reported : forall e toks x r,
 Proof. exact unclosed_reported. Qed.
 Print Assumptions C21_unclosed_reported.
 
+(* ================= the walk over the REAL token kinds (TagWalk.v) ================= *)
+
+(* clause 1 on real tokens: whatever the lexer yields -- tags, expressions, text, output statements, comment text, doc
+   blocks, in any order -- the analysis returns a report *)
+Theorem C21_walk_total : forall e toks, exists r, analyze e toks = Ok r.
+Proof. exact analyze_total. Qed.
+Print Assumptions C21_walk_total.
+
+(* only TAG tokens count: tokens of every other kind can be deleted or inserted anywhere without changing the report *)
+Theorem C21_walk_ignores_other_tokens : forall e toks, analyze e (filter is_tag toks) = analyze e toks.
+Proof. exact analyze_ignores_other_tokens. Qed.
+Print Assumptions C21_walk_ignores_other_tokens.
+
+(* what the lexer's treatment of the source constructs leaves for the analysis: the tags written at template level,
+   comment / endcomment around a comment block, # for an inline comment, liquid for a liquid tag -- nothing from inside
+   raw, doc and comment blocks, nothing from the lines of a liquid tag, nothing after an unclosed comment tag *)
+Theorem C21_walk_sees : forall its, names_of (lex_items its) = item_names its.
+Proof. exact names_of_lex. Qed.
+Print Assumptions C21_walk_sees.
+
+Theorem C21_swallowed_content_irrelevant : forall e pre post b b' ls ls',
+  analyze_items e (pre ++ IRaw b :: post) = analyze_items e (pre ++ IRaw b' :: post) /\
+  analyze_items e (pre ++ IDoc b :: post) = analyze_items e (pre ++ IDoc b' :: post) /\
+  analyze_items e (pre ++ IComment b :: post) = analyze_items e (pre ++ IComment b' :: post) /\
+  analyze_items e (pre ++ ILiquid ls :: post) = analyze_items e (pre ++ ILiquid ls' :: post).
+Proof. exact swallowed_content_irrelevant. Qed.
+Print Assumptions C21_swallowed_content_irrelevant.
+
+(* ================= clause 2 against the PARSER model of TagTree.v ================= *)
+
+(* for every register consistent with the parser's (a computable check, true of both shipped environments and re-evaluated
+   on the live tables on every run) and every token stream TagTree.parse_template accepts -- any nesting of block tags with
+   their section tags, inline tags, raw and comment blocks, output, text --, the report is EXACTLY: nothing unclosed,
+   nothing unknown, unexpected = the break / continue tags outside every block that lists them *)
+Theorem C21_parsed_report : forall e pb pi, consistentb e pb pi = true ->
+  forall ts ns, TagTree.parse_template (kind_from pb pi) ts = Ok ns ->
+  audit e (tnames ts) = Ok {| unclosed := []; unexpected := stray_interrupts e (tnames ts) []; unknown := [] |}.
+Proof. exact parsed_report. Qed.
+Print Assumptions C21_parsed_report.
+
+(* the same from the source constructs: raw / doc / comment blocks, inline comments and liquid tags included *)
+Theorem C21_parsed_source_report : forall e pb pi its ns,
+  consistentb e pb pi = true -> TagTree.parse_template (kind_from pb pi) (ttoks_of its) = Ok ns ->
+  analyze_items e its = Ok {| unclosed := []; unexpected := stray_interrupts e (item_names its) []; unknown := [] |}.
+Proof. exact parsed_items_report. Qed.
+Print Assumptions C21_parsed_source_report.
+
+(* hence no unclosed and no unknown report for a parsed source, and only break / continue can be called unexpected ... *)
+Theorem C21_parsed_only_interrupts : forall e pb pi its ns r,
+  consistentb e pb pi = true -> TagTree.parse_template (kind_from pb pi) (ttoks_of its) = Ok ns ->
+  analyze_items e its = Ok r ->
+  unclosed r = [] /\ unknown r = [] /\ forall t, In t (unexpected r) -> is_loop_interrupt t = true.
+Proof. exact parsed_only_interrupts. Qed.
+Print Assumptions C21_parsed_only_interrupts.
+
+(* ... and no alarm at all without a break / continue written at template level *)
+Theorem C21_parsed_no_alarm : forall e pb pi its ns,
+  consistentb e pb pi = true -> TagTree.parse_template (kind_from pb pi) (ttoks_of its) = Ok ns ->
+  (forall t, In t (item_names its) -> is_loop_interrupt t = false) ->
+  analyze_items e its = Ok empty_report.
+Proof. exact parsed_no_alarm. Qed.
+Print Assumptions C21_parsed_no_alarm.
+
+(* the default register and the register with liquid.extra's tags (macro, call, with, extends, block, translate / plural,
+   snippet; macro and block declare no end tag) are consistent with the parser's registers *)
+Theorem C21_shipped_registers_consistent :
+  consistentb default_env TagTree.std_blocks TagTree.std_inlines = true /\ consistentb extra_env ext_blocks ext_inlines = true.
+Proof. exact shipped_consistent. Qed.
+Print Assumptions C21_shipped_registers_consistent.
+
+(* ================= clause 3 at source level ================= *)
+Theorem C21_unknown_tag_in_source_reported : forall e its t r,
+  In t (item_names its) -> starts_end t = false -> mem t (registered_tags e) = false -> enclosing e t = [] ->
+  analyze_items e its = Ok r -> In t (unknown r).
+Proof. exact unknown_item_reported. Qed.
+Print Assumptions C21_unknown_tag_in_source_reported.
+
+Theorem C21_unclosed_block_in_source_reported : forall e its x r,
+  In x (block_names e) -> starts_end x = false ->
+  (forall u, In u (item_names its) -> starts_end u = true -> drop3 u <> x) ->
+  analyze_items e its = Ok r -> count x (unclosed r) = count x (item_names its).
+Proof. exact unclosed_item_reported. Qed.
+Print Assumptions C21_unclosed_block_in_source_reported.
+
+(* recorded findings, as witnesses.  (1) a break outside any for block: the parser accepts it, the analysis calls it
+   unexpected.  (2) clause 3 does NOT hold for tags written on the lines of a liquid tag: an unknown tag and an unclosed
+   block there go unreported (the lines are one unscanned expression token) *)
+Theorem C21_recorded_findings_refuted :
+  (exists ns, TagTree.parse_template TagTree.std_kind (ttoks_of [ITag (lit "break") false]) = Ok ns) /\
+  analyze_items default_env [ITag (lit "break") false] =
+    Ok {| unclosed := []; unexpected := [lit "break"]; unknown := [] |} /\
+  analyze_items default_env [ILiquid [(lit "nosuchtag", false); (lit "if", true)]] = Ok empty_report.
+Proof. vm_compute. repeat split. eexists. reflexivity. Qed.
+Print Assumptions C21_recorded_findings_refuted.
+
 Definition mini_env : tagenv :=
   {| blocks := [(lit "if", lit "endif"); (lit "for", lit "endfor"); (lit "macro", [])];
      inlines := [lit "assign"; lit "break"; lit "continue"];
@@ -50,3 +146,12 @@ Example C21_nonvacuous :
   wellnested mini_env [lit "for"; lit "if"; lit "else"; lit "break"; lit "endif"; lit "else"; lit "assign"; lit "endfor";
                        lit "macro"; lit "endmacro"] = true.
 Proof. vm_compute. split; reflexivity. Qed.
+
+(* non-vacuity of C21_parsed_source_report: a template with every kind of construct, in the extra register *)
+Example C21_parsed_nonvacuous :
+  let its := [IText; ITag (lit "macro") true; IOut; ITag (lit "for") true; IRaw [ITag (lit "if") true]; ITag (lit "break") false;
+              IComment [ITag (lit "nosuch") false]; ITag (lit "else") false; IHash; ITag (lit "endfor") false;
+              ILiquid [(lit "if", true); (lit "endif", false)]; ITag (lit "endmacro") false;
+              ITag (lit "translate") false; IText; ITag (lit "plural") false; IText; ITag (lit "endtranslate") false; IDoc []] in
+  (exists ns, TagTree.parse_template ext_kind (ttoks_of its) = Ok ns) /\ analyze_items extra_env its = Ok empty_report.
+Proof. vm_compute. split; [eexists|]; reflexivity. Qed.
